@@ -104,6 +104,14 @@ def dtype_match(schema_dt, phys_dt, values):
     """'ok' | 'bad' | 'unspec' | ('cells', [positions of offending elements])."""
     if schema_dt is None:
         return "ok"
+    sc, pc = str(schema_dt).startswith("cat:"), str(phys_dt).startswith("cat:")
+    if sc or pc:
+        # a parametrised categorical type is matched by exactly that categorical type (same categories, same orderedness)
+        if sc and pc:
+            return "ok" if schema_dt == phys_dt else "bad"
+        if sc:
+            return "bad"
+        return "unspec" if schema_dt in ("str", "object", "category") else "bad"
     if schema_dt == "str":
         if phys_dt == "object":
             bad = [i for i, v in enumerate(values) if not is_null(v) and not isinstance(v, str)]
